@@ -29,10 +29,17 @@ package main
 //  (2) Every ciphertext - each blob of each pack (located through the pack
 //      header parsed with the master key by pack.List), each pack header,
 //      each unpacked file (config, snapshot, index, lock), each key file's
-//      "data" - starts with a 16-byte nonce that is not all-zero, was handed
-//      out by the random stream as one 16-byte read, and occurs exactly once
-//      in the whole history.  Pack bytes must be fully accounted for by
+//      "data" - starts with a 16-byte nonce that is not all-zero, is a run of
+//      16 bytes handed out by the random stream (in reads of any size), and
+//      occurs exactly once in the whole history.  Pack bytes must be fully accounted for by
 //      blobs + header + length field.
+//
+//  (3) Freshness under concurrency (blob savers seal concurrently): 2 (quick)
+//      / 3 (thorough) goroutines call crypto.NewRandomNonce three times each;
+//      every read of the random source and every mutex acquisition inside the
+//      crypto package is a scheduling point; all schedules within the
+//      preemption bound are executed; all nonces handed out must be pairwise
+//      distinct, non-zero runs of the random stream.
 //
 // Non-trivial: the history stored >= 2 blobs, >= 2 pack headers and >= 2
 // unpacked files.
@@ -64,6 +71,8 @@ import (
 	"github.com/restic/restic/internal/restic"
 	"github.com/restic/restic/internal/ui/termstatus"
 	"github.com/restic/restic/internal/verifshim/vh"
+	"github.com/restic/restic/internal/verifshim/vx"
+	"github.com/restic/restic/internal/verifshim/xplore"
 	"golang.org/x/sys/unix"
 )
 
@@ -75,10 +84,18 @@ type verifC04Stream struct {
 	ctr     uint64
 	buf     []byte
 	reads16 map[[16]byte]int
+	all     []byte // every byte handed out so far
 }
 
 func verifC04NewStream(seed string) *verifC04Stream {
 	return &verifC04Stream{seed: sha256.Sum256([]byte("verif-C04|" + seed)), reads16: map[[16]byte]int{}}
+}
+
+// delivered reports whether n is a contiguous run of bytes this stream has handed out.
+func (s *verifC04Stream) delivered(n []byte) bool {
+	s.mu.Lock()
+	defer s.mu.Unlock()
+	return bytes.Contains(s.all, n)
 }
 
 func (s *verifC04Stream) Read(p []byte) (int, error) {
@@ -92,6 +109,7 @@ func (s *verifC04Stream) Read(p []byte) (int, error) {
 		s.buf = append(s.buf, h[:]...)
 	}
 	copy(p, s.buf[:len(p)])
+	s.all = append(s.all, p...)
 	s.buf = s.buf[len(p):]
 	if len(p) == 16 {
 		var k [16]byte
@@ -256,7 +274,7 @@ type verifC04Nonce struct {
 func TestVerif_C04(t *testing.T) {
 	r := vh.Start(t, "C04")
 	defer r.Finish()
-	r.Rule("histories (init, backup A, then every sequence of length <= 2 over 7 operations; quick: 6 sequences) x repo version {1,2} x compression {off,auto,max} run through the real command tree; every byte sequence ever saved is captured below the repository layer and scanned for 19 markers; every ciphertext's nonce is checked to be non-zero, drawn from the random stream as one 16-byte read, and unique in the history; non-trivial = history stored >= 2 blobs, >= 2 pack headers and >= 2 unpacked files")
+	r.Rule("histories (init, backup A, then every sequence of length <= 2 over 7 operations; quick: 6 sequences) x repo version {1,2} x compression {off,auto,max} run through the real command tree; every byte sequence ever saved is captured below the repository layer and scanned for 19 markers; every ciphertext's nonce is checked to be non-zero, a run of 16 bytes handed out by the random stream, and unique in the history; plus all interleavings (preemption-bounded) of 2-3 goroutines drawing nonces with crypto.NewRandomNonce, scheduling points at every read of the random source and every mutex acquisition inside the crypto package: all nonces pairwise distinct; non-trivial = history stored >= 2 blobs, >= 2 pack headers and >= 2 unpacked files")
 	r.Assume("crypto/rand.Reader is replaced by a deterministic SHA-256 counter stream; the statistical quality of the OS random source is out of scope",
 		"marker search is for the raw 24-byte markers and their 12-byte prefixes; an encoding of a marker (base64, hex, compressed) would only be found through the unencrypted-region check of packs and the nonce/decryption checks")
 	env, cleanup := withTestEnvironment(t)
@@ -299,6 +317,8 @@ func TestVerif_C04(t *testing.T) {
 		}
 	}
 
+	verifC04ConcurrentNonces(t, r)
+
 	seq := 0
 	for _, h := range histories {
 		for _, cfg := range configs {
@@ -317,6 +337,7 @@ func TestVerif_C04(t *testing.T) {
 				t.Fatal(err)
 			}
 			stream := verifC04NewStream(ck)
+			crypto.VerifResetGlobals() // random bytes an implementation may have buffered belong to the previous stream
 			rand.Reader = stream
 			log := &verifC04Log{}
 			var trace []string
@@ -454,9 +475,9 @@ func TestVerif_C04(t *testing.T) {
 				if k == ([16]byte{}) {
 					r.Violationf(ck, "C04|nonce-zero|"+class, detail(map[string]any{"object": where}), "%s %s has an all-zero nonce", class, where)
 				}
-				if stream.reads16[k] == 0 {
+				if !stream.delivered(n) {
 					r.Violationf(ck, "C04|nonce-not-random|"+class, detail(map[string]any{"object": where, "nonce": hex.EncodeToString(n)}),
-						"nonce %x of %s %s was not drawn from the random source as a 16-byte value", n, class, where)
+						"nonce %x of %s %s is not a run of 16 bytes handed out by the random source", n, class, where)
 				}
 				if prev, dup := seen[k]; dup {
 					cl := []string{prev.Class, class}
@@ -558,4 +579,118 @@ func TestVerif_C04(t *testing.T) {
 			_ = os.RemoveAll(work)
 		}
 	}
+}
+
+// ---- (3) fresh nonces under concurrency ----
+
+type verifC04GatedRand struct {
+	mu sync.Mutex
+	x  *xplore.Exec
+	s  *verifC04Stream
+	n  map[string]int
+}
+
+func (g *verifC04GatedRand) Read(p []byte) (int, error) {
+	if proc := g.x.ProcOfCaller(); proc != "" {
+		g.mu.Lock() // goroutines run freely until their first scheduling point
+		g.n[proc]++
+		k := g.n[proc]
+		g.mu.Unlock()
+		g.x.Gate(xplore.Event{Key: fmt.Sprintf("%s:rand.Read#%d", proc, k), Proc: proc, Kind: "rand"})
+	}
+	return g.s.Read(p)
+}
+
+type verifC04NonceExec struct {
+	mu     sync.Mutex
+	stream *verifC04Stream
+	got    map[string][][]byte
+}
+
+func verifC04ConcurrentNonces(t *testing.T, r *vh.Run) {
+	procs := []string{"G1", "G2"}
+	if r.Thorough() {
+		procs = append(procs, "G3")
+	}
+	const calls = 3
+	name := fmt.Sprintf("nonces/%d-goroutines", len(procs))
+	realRand := rand.Reader
+	defer func() { rand.Reader = realRand }()
+	sc := xplore.Scenario{
+		Start: func(x *xplore.Exec) {
+			// every execution starts from the crypto package's state at program start (generated
+			// VerifResetGlobals, see global_reset in checks/C04.json): executions stay independent even if
+			// a change keeps state between calls
+			crypto.VerifResetGlobals()
+			st := &verifC04NonceExec{stream: verifC04NewStream(name), got: map[string][][]byte{}}
+			x.Data = st
+			rand.Reader = &verifC04GatedRand{x: x, s: st.stream, n: map[string]int{}}
+			for _, g := range procs {
+				g := g
+				x.Go(g, func() {
+					for i := 0; i < calls; i++ {
+						// the slice is kept as returned (no copy): a caller seals with it later
+						n := crypto.NewRandomNonce()
+						st.mu.Lock()
+						st.got[g] = append(st.got[g], n)
+						st.mu.Unlock()
+					}
+				})
+			}
+		},
+	}
+	check := func(x *xplore.Exec) {
+		st := x.Data.(*verifC04NonceExec)
+		rand.Reader = realRand
+		key := strings.Join(x.Trace, ">")
+		r.State(key)
+		last, switches := "", 0
+		for _, k := range x.Trace {
+			p := strings.SplitN(k, ":", 2)[0]
+			if last != "" && p != last {
+				switches++
+			}
+			last = p
+		}
+		if switches >= 2 {
+			r.Nontrivial(key)
+		}
+		if len(x.Panics) > 0 {
+			vx.Violation(r, name, x, "C04|concurrent|panic", x.Panics[0], nil)
+			return
+		}
+		if x.Deadlock {
+			vx.Violation(r, name, x, "C04|concurrent|deadlock", "goroutines drawing nonces block each other forever", nil)
+			return
+		}
+		seen := map[[16]byte]string{}
+		total := 0
+		for _, g := range procs {
+			for i, n := range st.got[g] {
+				total++
+				where := fmt.Sprintf("%s call %d", g, i+1)
+				var k [16]byte
+				copy(k[:], n)
+				switch {
+				case len(n) != 16:
+					vx.Violation(r, name, x, "C04|concurrent|nonce-length", fmt.Sprintf("%s returned a nonce of %d bytes", where, len(n)), nil)
+				case k == [16]byte{}:
+					vx.Violation(r, name, x, "C04|concurrent|nonce-zero", where+" returned an all-zero nonce", nil)
+				case !st.stream.delivered(n):
+					vx.Violation(r, name, x, "C04|concurrent|nonce-not-random", fmt.Sprintf("nonce %x of %s is not a run of 16 bytes handed out by the random source", n, where), nil)
+				}
+				if prev, dup := seen[k]; dup {
+					vx.Violation(r, name, x, "C04|concurrent|nonce-reuse", fmt.Sprintf("nonce %x was handed out twice: %s and %s", n, prev, where), nil)
+				}
+				seen[k] = where
+			}
+		}
+		if total != calls*len(procs) && !x.Horizon {
+			vx.Violation(r, name, x, "C04|concurrent|missing", fmt.Sprintf("%d of %d NewRandomNonce calls returned", total, calls*len(procs)), nil)
+		}
+		r.Outcome(fmt.Sprintf("concurrent nonces: %d distinct of %d", len(seen), total))
+	}
+	stt := vx.Explore(r, t, name, sc, xplore.Options{Policy: xplore.Preempt, Bound: vh.Pick(r, 3, 3), LockPoints: true, MaxSteps: 400}, check)
+	r.Note("%s: execs(this shard)=%d maxdev=%d", name, stt.Execs, stt.MaxDev)
+	r.Extra("preemption_bound_nonces", 3)
 }
